@@ -76,6 +76,65 @@ let check_q lhs mid rhs =
       else go 0 ms sps orest
     end
 
+
+(* pipelined bursts: B <cfg> <ctr0> | f ; f / f / ... | o0 ; o1 ; ...   (one observation per burst) *)
+let check_b lhs mid rhs =
+  let (c, ctr0) = cfg_of lhs in
+  let bursts = List.filter (fun s -> s <> "") (split_on mid '/') in
+  let bursts = List.map (fun b ->
+      List.map (fun s -> frame_of_toks (split_ws s)) (List.filter (fun s -> s <> "") (split_on b ';'))) bursts in
+  let obs = List.map norm (List.filter (fun s -> s <> "") (split_on rhs ';')) in
+  match obs with
+  | [] -> Some "no observations"
+  | o0 :: orest ->
+    let (s0, outs0) = start c ctr0 in
+    let (ss0, _) = spec_start c ctr0 in
+    let m0 = String.concat " " (("0" :: "K" :: out_tokens outs0)) in
+    if m0 <> o0 then Some (Printf.sprintf "connect: model=[%s] impl=[%s]" m0 o0)
+    else begin
+      (* run one burst on the model and on the table; None = the link ended before the burst's last frame *)
+      let burst_model s fs =
+        let rec go s fs acc =
+          match fs with
+          | [] -> Some (s, List.rev acc, Keep)
+          | f :: r ->
+            let ((s', o), e) = respond c s f in
+            (match e, r with
+             | Down, [] -> Some (s', List.rev (List.rev_append o acc), Down)
+             | Down, _ -> None
+             | Keep, _ -> go s' r (List.rev_append o acc))
+        in go s fs [] in
+      let burst_spec s fs =
+        let rec go s fs acc =
+          match fs with
+          | [] -> Some (s, List.rev acc, Keep)
+          | f :: r ->
+            let ((s', o), e) = spec_step c s f in
+            (match e, r with
+             | Down, [] -> Some (s', List.rev (List.rev_append o acc), Down)
+             | Down, _ -> None
+             | Keep, _ -> go s' r (List.rev_append o acc))
+        in go s fs [] in
+      let rec loop i s ss bs os =
+        match bs, os with
+        | [], [] -> None
+        | b :: br, o :: orr ->
+          (match burst_model s b, burst_spec ss b with
+           | Some (s', mo, me), Some (ss', so, se) ->
+             let sel e b = match e with Down -> "x" | Keep -> string_of_bool01 b in
+             let m = String.concat " " (sel me s'.selected :: eff_s me :: out_tokens mo) in
+             let sp = String.concat " " (sel se ss'.s_sel :: eff_s se :: out_tokens so) in
+             if m <> o then Some (Printf.sprintf "burst #%d: model=[%s] impl=[%s]" i m o)
+             else if sp <> o then Some (Printf.sprintf "burst #%d: spec=[%s] impl=[%s]" i sp o)
+             else (match me with
+                 | Down -> if br = [] then None else Some (Printf.sprintf "burst #%d: the model ended the link but the harness went on" i)
+                 | Keep -> loop (i + 1) s' ss' br orr)
+           | _ -> Some (Printf.sprintf "burst #%d: the model ends the link inside the burst" i))
+        | _ -> Some (Printf.sprintf "burst/observation length mismatch at #%d" i)
+      in
+      loop 0 s0 ss0 bursts orest
+    end
+
 let pout_tokens (ps : pout list) : string =
   let outs = List.filter_map (function POut (_, o) -> Some o | _ -> None) ps in
   let toks =
@@ -109,6 +168,7 @@ let check _ln line =
   match split_ws lhs with
   | "Q" :: rest -> check_q rest mid rhs
   | "P" :: rest -> check_p rest mid rhs
+  | "B" :: rest -> check_b rest mid rhs
   | "V" :: [b] ->
     (* validity set: generated IsValidSType = model valid_stype = what the code answered *)
     let b = z_of_string b in
